@@ -418,6 +418,7 @@ impl<F: NttFriendlyFieldElement, S: ParallelSumGadget<F, Mul>> Histogram<F, S> {
         if !length.is_multiple_of(chunk_length) {
             gadget_calls += 1;
         }
+        check_parallel_sum_lengths(chunk_length, gadget_calls)?;
 
         Ok(Self {
             length,
@@ -626,6 +627,7 @@ impl<F: NttFriendlyFieldElement, S: ParallelSumGadget<F, Mul>> MultihotCountVec<
 
         // Gadget calls is ⌈meas_length / chunk_length⌉
         let gadget_calls = meas_length.div_ceil(chunk_length);
+        check_parallel_sum_lengths(chunk_length, gadget_calls)?;
 
         Ok(Self {
             length: num_buckets,
@@ -871,6 +873,7 @@ impl<F: NttFriendlyFieldElement, S: ParallelSumGadget<F, Mul>> SumVec<F, S> {
         if flattened_len % chunk_length != 0 {
             gadget_calls += 1;
         }
+        check_parallel_sum_lengths(chunk_length, gadget_calls)?;
 
         Ok(Self {
             len,
@@ -1003,6 +1006,26 @@ where
     fn output_len(&self) -> usize {
         self.len
     }
+}
+
+/// Checks that the proof, verifier and randomness lengths of a circuit built around a
+/// `ParallelSum` gadget with the given parameters can be computed without overflow.
+pub(crate) fn check_parallel_sum_lengths(
+    chunk_length: usize,
+    gadget_calls: usize,
+) -> Result<(), FlpError> {
+    let wires = chunk_length.checked_mul(2);
+    let gadget_poly = gadget_calls
+        .checked_add(1)
+        .and_then(usize::checked_next_power_of_two)
+        .and_then(|p| (p - 1).checked_mul(2));
+    wires
+        .zip(gadget_poly)
+        .and_then(|(wires, gadget_poly)| wires.checked_add(gadget_poly)?.checked_add(2))
+        .map(|_| ())
+        .ok_or_else(|| {
+            FlpError::InvalidParameter("proof length overflows addressable memory".into())
+        })
 }
 
 /// Given a vector `data` of field elements which should contain exactly one entry, return the
